@@ -688,10 +688,12 @@ class LoadExec(Exec):
             L = self.ev(e.args[1], env, pc)
             # contract of mmap.mmap(fd, length) (probed): ValueError when length exceeds the file size;
             # length 0 maps the whole file (never 0 here: 16 + size >= 16)
+            # contract of mmap.mmap(fd, length) (probed): ValueError when length exceeds the file size or is negative;
+            # length 0 maps the WHOLE file as it is on disk (ValueError only for an empty file)
             self.outcomes.append(("raise ValueError(mmap length > file size)", pc + [L.v > self.k]))
-            self.outcomes.append(("raise (mmap of non-positive length)", pc + [L.v <= 0]))
-            pc.append(z3.And(L.v <= self.k, L.v > 0))
-            return Tok("buf", length=L.v)
+            self.outcomes.append(("raise (mmap of negative length / of an empty file)", pc + [z3.Or(L.v < 0, z3.And(L.v == 0, self.k == 0))]))
+            pc.append(z3.And(L.v <= self.k, L.v >= 0, z3.Or(L.v > 0, self.k > 0)))
+            return Tok("buf", length=z3.If(L.v == 0, self.k, L.v))
         if f == "IndxIO.format" and len(e.args) == 1:
             a = self.ev(e.args[0], env, pc)
             self.ob("call-IndxIO.format-requires", pc, z3.Or(a.v == 1, a.v == 2, a.v == 4, a.v == 8), ast.unparse(e)[:60])
